@@ -102,7 +102,7 @@ func init() {
 
 func init() {
 	note := "C04/C05 share one harness: histories of 10..40 (thorough ..200) requests over fid numbers {0..5,7,NOFID,NOFID-1} on 1..2 connections using the same numbers, all message types incl. walks that are full, partial, failing, zero-name, in place or onto a used newfid, attach with/without afid, open modes incl. OTRUNC/ORCLOSE, create perms incl. DMDIR and the special-file bits, read/write counts at 0, 1, msize-25, msize-24, msize-23, 2^31, 2^32-24, 2^32-11, 2^32-1, both dialects, with and without AuthOps; the generator runs the reference model forward to keep histories in interesting states. Requests are issued one at a time (the next the moment the previous reply is readable, while the previous worker may still be running); every reply, every implementation call (operation, fid object identity, user, arguments) and every FidDestroy is compared with the reference fid-table model, then every fid number is probed."
-	reg(&propCfg{ID: "C04", QuickRuns: 4000, QuickSecs: 40, ThoroughRuns: 200000, ThoroughSecs: 780, Chunk: 50, RuleNote: note + " C04 evaluates rules a*: validity, refusal texts, forwarding of requests naming invalid fids, user binding, FidDestroy exactly once and not after the invalidating reply, final probes.",
+	reg(&propCfg{ID: "C04", QuickRuns: 4000, QuickSecs: 40, ThoroughRuns: 200000, ThoroughSecs: 780, Chunk: 50, RuleNote: note + " C04 evaluates rules a*: validity, refusal texts, forwarding of requests naming invalid fids, user binding, FidDestroy exactly once and not after the invalidating reply, final probes. Every 5th run of C04 is the stratum 'concurrent-batch': after a prologue, 2..8 (thorough ..30) rounds each send 2..4 requests (Tattach, Twalk to a new or the same fid with 0/1 names, Tclunk, Tremove, Tstat) that mostly meet on one of four fid numbers, in one segment or back to back, the implementation holding a drawn share of them until released in drawn order; the replies, the implementation calls per request and the validity of every number afterwards (probed with Tstat) must be explained by some order of the batch applied to the fid-table model (all orders tried; a request overlapping an invalidation or an unanswered bind of its fid may go either way), and at the end every fid object shown to the implementation is reported destroyed exactly once unless still valid.",
 		Real: srvReal, Stub: srvStub, ProbeNames: []string{"refused-before-forward", "fid-invalidated", "forwarded-walk", "forwarded-attach"}})
 	reg(&propCfg{ID: "C05", QuickRuns: 4000, QuickSecs: 40, ThoroughRuns: 200000, ThoroughSecs: 780, Chunk: 50, RuleNote: note + " C05 evaluates rules b*: refusal before forwarding for every protocol rule, forwarded exactly once with the fid object, user and arguments named, reply equal to what the implementation produced, authentication gate.",
 		Real: srvReal, Stub: srvStub, ProbeNames: []string{"refused-before-forward", "forwarded-read", "forwarded-write", "forwarded-create", "forwarded-open"}})
